@@ -5,3 +5,4 @@ def run(ses): c11.run(ses, 'nbf')
 
 confirm = c01.confirm
 replay = c01.replay
+BASELINE = ['c12']
